@@ -834,7 +834,7 @@ func TestC27(t *testing.T) {
 	results := make([]result, len(scripts))
 	var wg sync.WaitGroup
 	runWithRetry := func(i int, m *etcdv3.Mercury) {
-		for try := 0; try < 3; try++ {
+		for try := 0; try < 4; try++ {
 			if m != nil && try > 0 {
 				// a fresh key prefix for the new attempt
 				old := m.KV.(*prefixKV)
@@ -884,9 +884,17 @@ func TestC27(t *testing.T) {
 	wg.Wait()
 
 	results = append(results, glue)
+	dropped := 0
 	for _, res := range results {
 		if res.Err != "" {
 			t.Fatalf("script %s: %s", res.Script.Name, res.Err)
+		}
+		if res.Late {
+			// the harness itself woke up late in all four attempts (machine overloaded):
+			// the slot discipline did not hold, so this is not a valid observation
+			r.Count("dropped_late_harness_wakeup")
+			dropped++
+			continue
 		}
 		exposed := stallExposed(res)
 		kinds := map[string]bool{}
@@ -897,9 +905,6 @@ func TestC27(t *testing.T) {
 		r.Count(fmt.Sprintf("stall_exposed=%v", exposed))
 		r.Count(fmt.Sprintf("etcd=%v", res.Script.Etcd))
 		r.Count(fmt.Sprintf("subscribers=%d", len(res.Keys)))
-		if res.Late {
-			r.Count("late_wakeup")
-		}
 		nmsg := 0
 		for _, sl := range res.Slots {
 			for _, ms := range sl.Got {
@@ -909,6 +914,9 @@ func TestC27(t *testing.T) {
 		r.Count(fmt.Sprintf("messages>=%d", (nmsg/5)*5))
 		tags := map[string]any{"stall_exposed": exposed, "etcd": res.Script.Etcd, "stream_closed": kinds["close"] || res.Script.StartErr}
 		r.Add(coqCase(res), res, tags, len(res.Keys) > 0 && nmsg > 0)
+	}
+	if dropped*3 > len(results) {
+		t.Fatalf("%d of %d scripts could not be run with the required timing", dropped, len(results))
 	}
 	r.Finish("corpus (12 stub + 4 etcd scripts incl. the witness of the finding and changes inside the stream's Watch/Get window; one scenario through the real calcium.WatchServiceStatus) then random scripts of 7-13 actions over <=4 subscribers " +
 		"(set/put/del | sub | read | stall | cancel | unsub | cancelunsub | wait), every third stub script allows stalled subscribers; " +
